@@ -20,7 +20,8 @@ class SimFault(Exception):
 
 
 RETRYABLE_KINDS = ('timeout', 'conn', 'readtimeout', 'incomplete', 'streaming')
-FATAL_KINDS = ('client', 'value', 'simfault', 'eio', 'permission', 'runtime', 'kbi')
+FATAL_KINDS = ('client', 'value', 'simfault', 'eio', 'permission', 'runtime', 'kbi',
+               'cancellederr')
 
 
 def make_exc(kind, fid):
@@ -63,6 +64,12 @@ def make_exc(kind, fid):
         e = SimFault('injected %s' % fid)
     elif kind == 'runtime':
         e = RuntimeError('injected %s' % fid)
+    elif kind == 'cancellederr':
+        # a step of a transfer NOBODY cancelled raises the package's own
+        # CancelledError (a callback or stream that relays the cancellation of
+        # some other transfer): a failure like any other
+        from s3transfer.exceptions import CancelledError
+        e = CancelledError('injected %s' % fid)
     else:
         raise ValueError('unknown fault exception kind %r' % kind)
     e._sim_fault_id = fid
